@@ -20,10 +20,13 @@ git checkout -q -- .
 echo "confirm $P/$V: demo-unchanged-exit=$base build=$b stable-tests=$t demo-with-change-exit=$mut"
 if [ "$base" != 0 ] || [ "$b" != 0 ] || [ "$t" != 0 ] || [ "$mut" = 0 ]; then echo "NOT-CONFIRMED $P/$V"; exit 1; fi
 cd /verif
+# evidence committed in /verif must come from clean-tree runs: keep it aside while the change is applied
+rm -rf /tmp/evidence.keep && cp -r /verif/evidence /tmp/evidence.keep
 git -C /repo apply $OUT/$V.diff || { echo "APPLY-TO-REPO-FAILED"; exit 2; }
 for q in $PROPS; do
   ./check $q > /tmp/check_$q.out 2>&1; rc=$?
   echo "  check $q rc=$rc: $(grep -E 'VIOLATION|BROKEN' /tmp/check_$q.out | head -3 | tr '\n' '|' | cut -c1-400)"
 done
 git -C /repo checkout -- .
+rm -rf /verif/evidence && mv /tmp/evidence.keep /verif/evidence
 git -C /repo status --short | head -3
